@@ -86,11 +86,12 @@ def opsCompressC22 (op : String) (a : List Bytes) : Option String :=
     let ct := if ct.isEmpty then Gen.defaultContentType else ct
     let h : Resp :=
       if mode == [98] then ⟨ce, ct, vary, 0, .buf parts.flatten⟩
+      else if mode == [114] then ⟨ce, ct, vary, 0, .raw parts.flatten⟩
       else if mode == [102] then ⟨ce, ct, vary, total, .stream parts⟩
       else ⟨ce, ct, vary, -1, .stream parts⟩
     let f := fun r => if which == [66] then compressHandlerBrotliLevel drvCodecs b l ae r else compressHandlerLevel drvCodecs l ae r
     let out := if nested == [49] then f (f h) else f h
-    let chunked := match out.body with | .stream _ => decide (out.clen < 0) | .buf _ => false
+    let chunked := match out.body with | .stream _ => decide (out.clen < 0) | _ => false
     some s!"{hex out.ce}|{hex out.vary}|{decide (out.ce ≠ h.ce)}|{chunked}"
   | "c22qsim", w :: cap :: phases => do
     let w ← natOfDec? w
